@@ -9,4 +9,6 @@ require (
 	golang.org/x/tools v0.23.0
 )
 
+require github.com/pkg/errors v0.9.1 // indirect
+
 replace github.com/goose-lang/goose => /repo
